@@ -46,21 +46,16 @@ func RunCases(t *testing.T, cases []Case) {
 		draws := 0
 		failed := ""
 		func() {
-			defer func() {
-				// rapid.Check ends the test through t.FailNow on failure; record first
-				if failed != "" {
-					vk.Fail(c.Prop, "TestShapes", "", sc, failed)
-				}
-			}()
 			rapid.Check(t, func(rt *rapid.T) {
 				draws++
 				h := &H{RT: rt, Case: c.ID}
 				c.Run(h)
 				if h.Failed() {
 					failed = c.ID + ": " + h.Message()
+					// recorded at once: a schedule-dependent failure may not show again when rapid re-runs the case
+					vk.Fail(c.Prop, "TestShapes", "", sc, failed)
 					rt.Fatalf("%s", failed)
 				}
-				failed = ""
 			})
 		}()
 		cl := append([]string{"prop=" + c.Prop}, c.Classes...)
